@@ -497,7 +497,7 @@ func init() {
 	core.Register(&core.Prop{
 		ID:    "C12",
 		Level: "model_checking",
-		Rule:  "E1: breadth-first search over all histories of CreateNode (plain / XML / JSON node; pool answer newest / fresh / oldest) . AddChild(any live node, any detached root) . RemoveAndReleaseTree(any live node) with at most 5 live nodes, deduplicated by canonical state (sorted forest shapes + pool size); after every operation the real links are compared with a slice-based mirror model, fresh nodes must be blank, pooled nodes reset and never live or duplicated, IDs never repeat (states and transitions counted). E2: every tree delivered through the Transform by all seven readers on corpus inputs and token strings is audited (links, acyclicity, pool membership) at every record and after the terminal result; a node released twice is caught by the shim pool. E3: 2-3 threads each running a private create/add/remove history under the cooperative scheduler at every pool/atomic operation, preemption bound 2 (all schedules), plus a free-running -race pass of the same bodies",
+		Rule:  "E1: breadth-first search over all histories of CreateNode (plain / XML / JSON node; pool answer newest / fresh / oldest) . AddChild(any live node, any detached root) . RemoveAndReleaseTree(any live node) with at most 5 live nodes, deduplicated by canonical state (sorted forest shapes + pool size); after every operation the real links are compared with a slice-based mirror model, fresh nodes must be blank, pooled nodes reset and never live or duplicated, IDs never repeat (states and transitions counted). E2: every tree delivered through the Transform by all seven readers on corpus inputs and token strings is audited (links, acyclicity, pool membership) at every record and after the terminal result; a node released twice is caught by the shim pool; E2b: the XML and JSON stream readers on every document of up to 3 (thorough 4) nodes x 19 / 18 target xpaths (the document root itself with accepting / rejecting filters, children, descendants, nested candidates). E3: 2-3 threads each running a private create/add/remove history under the cooperative scheduler at every pool/atomic operation, preemption bound 2 (all schedules), plus a free-running -race pass of the same bodies",
 		Assumptions: []string{
 			"the shim pool (vsync.Pool: LIFO free list with a choice of newest/fresh/oldest on Get) models sync.Pool's freedom to keep, drop and reorder cached objects; the free-running pass uses the real sync.Pool",
 			"the -race pass is not exhaustive over schedules; it relies on the detector's happens-before analysis (exhaustive:false for that part)",
@@ -659,6 +659,64 @@ func c12Run(c *core.Ctx) {
 				c.Violation(sig, detail, c12Case{E2: &c01E2Case{Item: "c10/" + f.Name, Schema: f.Schema, Input: in}}, nil)
 			}
 			c.Eval("E2|c10/" + f.Name)
+		}
+	}
+	// E2b: the two stream readers with every kind of target xpath (the document root itself, with a
+	// filter that accepts / rejects it; children; descendants; nested candidates) on every small document
+	{
+		hd := func(f string) string {
+			return `"parser_settings":{"version":"omni.2.1","file_format_type":"` + f + `"}`
+		}
+		jxp := []string{".", "/", ".[a='1']", ".[b]", ".[not(b)]", ".[count(*)=2]", ".[.='1']", "/*", "/*[.='1']", "/*[b]", "/a", "/a[b]", "/a/b[.='1']", "//*", "//*[b]", "//b[.='1']", "//b[not(b)]", "/*/*", "/*/*[.!='1']"}
+		xxp := []string{".", "/", "/*", "/a", "/a[b]", "/a[not(b)]", "/a[@k='1']", "/a[.='1']", "/a/b", "/a/b[.='1']", "/a/*[not(*)]", "//*", "//*[b]", "//b", "//b[.='2']", "//a[not(@k)]", "/*/*", "/*/*[@k]"}
+		run := func(format, doc string, xps []string) bool {
+			idx++
+			if !c.Mine(idx) {
+				return true
+			}
+			c.Count("E2b_documents_"+format, 1)
+			for _, xp := range xps {
+				xq, _ := json.Marshal(xp)
+				st := `{` + hd(format) + `,"transform_declarations":{"FINAL_OUTPUT":{"xpath":` + string(xq) + `,"custom_func":{"name":"copy"}}}}`
+				item := "stream/" + format + "/" + xp
+				cs := c12Case{E2: &c01E2Case{Item: item, Schema: st, Input: doc}}
+				c.Begin(func() interface{} { return cs })
+				sig, detail := c12E2(st, item, doc)
+				c.Eval("E2b|" + item)
+				c.Count("reader_inputs_audited", 1)
+				if strings.HasPrefix(sig, "harness:") {
+					c.HarnessError(sig + detail)
+				} else if sig != "" {
+					c.Violation(sig, detail, cs, func() string { s, _ := c12E2(st, item, doc); return s })
+				}
+			}
+			return !c.TimeUp()
+		}
+		nmax := 3
+		if !c.Quick() {
+			nmax = 4
+		}
+		for n := 1; n <= nmax; n++ {
+			stop := false
+			c04JSONDocs(n, []string{"1", `"1"`, "null"}, []string{"a", "b"}, func(doc string) bool {
+				if !run("json", doc, jxp) {
+					stop = true
+				}
+				return !stop
+			})
+			al := c04XMLAlpha{names: []string{"a", "b"}, attrs: []string{"", "1"}, lead: []string{"", "1", "2"}, trail: []string{"", " "}}
+			if n >= 3 {
+				al = c04XMLAlpha{names: []string{"a", "b"}, attrs: []string{"", "1"}, lead: []string{"", "1"}, trail: []string{""}}
+			}
+			c04XMLDocs(n, 4, al, false, func(doc string) bool {
+				if !run("xml", doc, xxp) {
+					stop = true
+				}
+				return !stop
+			})
+			if stop {
+				return
+			}
 		}
 	}
 	// ---- E3 ----
